@@ -15,7 +15,7 @@ from ..common import Ctx
 LEVEL = "exploration"
 SHARDS = {"quick": 16, "thorough": 16}
 FLOOR = {"quick": 400, "thorough": 8000}
-REQUIRED_COUNTERS = ["calls_made", "returns_checked", "type_checks", "reserialisations_compared", "no_content_checked",
+REQUIRED_COUNTERS = ["alternative_media_replies", "calls_made", "returns_checked", "type_checks", "reserialisations_compared", "no_content_checked",
                      "secondary_2xx_checked", "stream_calls", "text_responses", "ndjson_responses"]
 RULE = ("operations x every declared 2xx status (primary and secondary) x media types (json, event-stream, octet-stream; trigger classes "
         "text/plain and ndjson) x conforming bodies (objects, arrays, aliases, primitives); case = (operation, status, body); "
@@ -100,6 +100,21 @@ def make_calls(ctx: Ctx, d: specgen.Doc) -> list[dict]:
                 calls.append({"id": f"{op['seg']}-{code}-{rep}", "seg": op["seg"], "http": op["method"], "args": [], "plan": plan, "_exp": exp})
                 if kind is None:
                     break
+            # the other content types declared on the same response: one reply each, announced by Content-Type
+            for ai, alt in enumerate(r.get("alt") or []):
+                plan = {"status": int(code), "headers": {"content-type": alt["media"]}}
+                exp = {"op": op, "code": code, "kind": alt["content"], "primary": ci == 0, "has_content_sibling": True, "alt_media": alt["media"]}
+                if alt["content"] == "json":
+                    body = instgen.instance(rng, alt["schema"], d.sexp, "random")
+                    plan["content_hex"] = json.dumps(body).encode().hex()
+                    exp["body"] = body
+                else:
+                    t = rng.choice(["hello", "multi\nline ü", "{not json"])
+                    plan["text"] = t
+                    plan["headers"]["content-type"] = alt["media"] + "; charset=utf-8"
+                    exp["text"] = t
+                ctx.rec.count("alternative_media_replies")
+                calls.append({"id": f"{op['seg']}-{code}-alt{ai}", "seg": op["seg"], "http": op["method"], "args": [], "plan": plan, "_exp": exp})
     return calls
 
 
@@ -186,6 +201,7 @@ def mk_doc(ctx: Ctx, trig: set[str]) -> specgen.Doc:
     kinds = ["sse", "binary", "text", "ndjson"]
     d = specgen.generate(ctx.rng, allow=trig, prof={"ops": (2, 5), "p_param": 0.3, "p_body": 0.2, "schemas": (2, 5), "p_multi2xx": 0.5,
                                                     "p_stream": 0.3, "stream_kinds": kinds, "p_nullable_response": 0.3, "json_media_variants": True,
+                                                    "p_multi_response_media": 0.25,
                                                     "styles": ["camel", "snake", "kebab", "keywordish"], "p_self_ref": 0.0, "p_union": 0.0})
     return d
 
@@ -221,6 +237,12 @@ def run_doc(ctx: Ctx, it: dict) -> None:
         r = po["results"].get(c["id"])
         if r is not None:
             f2 = feats
+            if "multi_response_media" in f2:
+                # attribute to the operation, not the document: only replies of operations that declare several content
+                # types on one response belong to that trigger class
+                f2 = [f for f in f2 if f != "multi_response_media"]
+                if any(rr.get("alt") for rr in c["_exp"]["op"]["responses"].values()):
+                    f2 = f2 + ["op_several_content_types_on_one_response"]
             if op_feats:
                 # shape catalogue: a violation is attributed to the shape of THIS operation's response
                 f2 = list(op_feats.get(c["seg"], [])) + ["shapes"]
@@ -247,8 +269,7 @@ def run_shard(ctx: Ctx) -> None:
             trig = TRIGGERS[0]
         run_doc(ctx, {"doc": mk_doc(ctx, trig), "n": ctx.shard * 100000 + b, "trigger": trig})
     # the exhaustive shape catalogue as RESPONSE bodies: every wrapper(wrapper(leaf)) directly under a 200 response
-    cat = list(enumerate(shapes.all_shapes(2 if ctx.quick else 3)))
-    chunks = [cat[i:i + 20] for i in range(0, len(cat), 20)]
+    chunks = shapes.chunked(2 if ctx.quick else 3, 20)
     for ci, chunk in enumerate(chunks):
         if ctx.mine(ci):
             run_doc(ctx, {"doc": shapes.response_document(chunk), "n": ctx.shard * 100000 + 70000 + ci, "trigger": set()})
